@@ -5,6 +5,8 @@
      {"ev":"Recover","S":[ranks],"err":bool,"secretEq":bool,"pubEq":bool}
      {"ev":"Combine","S":[ranks],"sub":{kind,pos,arg},"setupErr":bool,"aggErr":bool,"altered":bool,"aggEqAll":bool,
       "aggEqAny":bool,"verifiesAll":bool,"verifiesAny":bool}
+     {"ev":"Replay","genuine":bool,"replayVerifies":bool,"crossVerifies":bool,"stillVerifies":bool,...per-kind detail}
+       same process, same signature bytes: genuine verification first, then against another message, then again
    The tbls functions range over Go maps, so the executor repeats each of them: "All" = the relation held in every
    repetition, "Any" = in at least one.  A relation the model says holds must hold in ALL, one it says fails in NONE.
    Each event is bound to the machine's action and the logged relations must be the model's (obs').  Where the
@@ -24,7 +26,11 @@ TCombine == /\ IsEvent("Combine") /\ Combine(SeqToSet(Ev.S), Ev.sub)
             /\ IF obs'.aggEq THEN Ev.aggEqAll ELSE ~Ev.aggEqAny
             /\ IF obs'.verifies THEN Ev.verifiesAll ELSE ~Ev.verifiesAny
             /\ (obs'.verifies => Ev.aggErr = FALSE)
-TraceNext == TReset \/ TSplit \/ TRecover \/ TCombine
+TReplay == /\ IsEvent("Replay") /\ Replay
+           /\ Ev.setupErr = FALSE
+           /\ Ev.genuine = obs'.genuine /\ Ev.replayVerifies = obs'.replayVerifies
+           /\ Ev.crossVerifies = obs'.crossVerifies /\ Ev.stillVerifies = obs'.stillVerifies
+TraceNext == TReset \/ TSplit \/ TRecover \/ TCombine \/ TReplay
 TraceSpec == TraceInit /\ [][TraceNext]_tvars
 Mark == CheckInv("TypeOK", TypeOK) /\ HWMark
 ====
